@@ -214,8 +214,11 @@ Definition tfit_tab (tab : list tcall) (tm : nat) (prev : option (list float)) (
   | Some c => tc_result c
   | None => []
   end.
+(* references are recomputed by the model (arange / linspace arithmetic): matched to 1e-9 relative, not bit for bit *)
+Definition fclose9 (a b : float) : bool :=
+  fbits_eq a b || (PrimFloat.leb (abs (a - b)) (0x1.12e0be826d695p-30 * (if PrimFloat.ltb (abs a) (abs b) then abs b else abs a))).
 Definition dfit_tab (tab : list dcall) (dep : nat * nat) (prev : option (list float)) (x y : list float) : list float :=
-  match find (fun c => Nat.eqb (dc_dep c) (fst dep) && ofl_eqb (dc_prev c) prev && fl_eqb (dc_x c) x
+  match find (fun c => Nat.eqb (dc_dep c) (fst dep) && ofl_eqb (dc_prev c) prev && all2 fclose9 (dc_x c) x
                        && fl_eqb (dc_y c) y) tab with
   | Some c => dc_result c
   | None => []
